@@ -73,6 +73,24 @@ Proof.
 Qed.
 Print Assumptions C14_mux_demux_roundtrip_example.
 
+(** Assemble in the middle of a history reads the muxer state and never changes it: a
+    history with Assemble calls reaches the state (hence the final bytes) of the same
+    history without them.  (On the Go side: the final Assemble must equal that of a fresh
+    Muxer fed the non-Assemble calls; checked per run.) *)
+Theorem C14_assemble_call_is_identity : forall ops,
+  run ops = run (filter (fun o => match o with AssembleCall => false | _ => true end) ops).
+Proof. exact run_ignores_assemble_calls. Qed.
+Print Assumptions C14_assemble_call_is_identity.
+
+(** Frame limit: whatever the history (no hypothesis), the muxer never holds more frames
+    than the demuxer accepts; both limits are the constant of the current source. *)
+Theorem C14_frame_limit_consistent :
+  (forall ops, len (m_frames (run ops)) <= maxFrames) /\
+  MuxModel.MaxFrames = DemuxModel.maxFrames /\
+  WebpGen.Consts.container_MaxFrames = MuxModel.MaxFrames /\ WebpGen.Consts.mux_maxFrames = DemuxModel.maxFrames.
+Proof. split; [exact frames_bounded|repeat split; reflexivity]. Qed.
+Print Assumptions C14_frame_limit_consistent.
+
 (** Metadata above maxMetadataSize (excluded by the hypotheses; finding meta-too-large):
     the demuxer's chunk switch refuses such a chunk whatever else the file holds, while
     validate / Assemble of the current muxer do not look at blob sizes. *)
